@@ -101,6 +101,149 @@ class Walker:
         return bytes(out)
 
 
+    # ------------------------------------------------------------ state cover
+    def _reps(self, t, rng):
+        vals = [v for v in t["on"] if isinstance(v, int)]
+        if not vals:
+            return []
+        out = {vals[0], vals[-1]}
+        if len(vals) > 2:
+            out.add(rng.choice(vals))
+        return sorted(out)
+
+    def _else_byte(self, s, rng):
+        """a byte no transition near s names explicitly (takes the else edge, or is a mismatch)."""
+        vals, _ = self.candidates(s)
+        named = set(vals)
+        free = [b for b in (0, 255, 10, 32, 33, 126, 127, 128, 1) + tuple(range(35, 123)) if b not in named]
+        if not free:
+            free = [b for b in range(256) if b not in named]
+        return rng.choice(free[:12]) if free else None
+
+    def _succ_all(self, s, b):
+        """all rough successors of s on byte b, exploring every branch of condition points."""
+        out = set()
+        stack = [(s, 0)]
+        seen = set()
+        while stack:
+            x, d = stack.pop()
+            if d > 48 or x < 0 or x >= len(self.states) or (x, d > 0) in seen:
+                continue
+            seen.add((x, d > 0))
+            st = self.states[x]
+            if st["cp"]:
+                for t in st["tr"]:
+                    stack.append((t["to"], d + 1))
+                continue
+            hit = None
+            els = None
+            for t in st["tr"]:
+                if b in t["on"]:
+                    hit = t
+                    break
+                if "L" in t["on"]:
+                    els = t
+            t = hit or els
+            if t is None or t["to"] < 0:
+                continue
+            if t["fall"]:
+                stack.append((t["to"], d + 1))
+            else:
+                out.add(t["to"])
+        return out
+
+    def shortest_paths(self, rng, limit=4096):
+        """state -> one shortest byte string that (roughly) drives the machine into it."""
+        start = self.dfa["start"]
+        paths = {start: b""}
+        frontier = [start]
+        while frontier and len(paths) < limit:
+            nxt = []
+            for s in frontier:
+                cl = [x for x in sorted(self._closure(s)) if 0 <= x < len(self.states)]
+                bs = []
+                for x in cl:
+                    for t in self.states[x]["tr"]:
+                        bs.extend(self._reps(t, rng))
+                eb = self._else_byte(s, rng)
+                if eb is not None:
+                    bs.append(eb)
+                seen_b = set()
+                for b in bs:
+                    if b in seen_b:
+                        continue
+                    seen_b.add(b)
+                    for t2 in sorted(self._succ_all(s, b)):
+                        if t2 not in paths:
+                            paths[t2] = paths[s] + bytes([b])
+                            nxt.append(t2)
+            frontier = nxt
+        return paths
+
+    def cover(self, rng, count, maxlen, avoid=()):
+        """
+        inputs aimed at (machine state, byte) pairs: a shortest path into a target state, then one byte
+        per kind of move the state has (a named byte, a byte only another state names, an else /
+        mismatch byte, 0xFF), then a short guided continuation.  EOF at the state is covered by the
+        forked end() of the canonical pass.
+        """
+        paths = self.shortest_paths(rng)
+        fail = self.dfa.get("fail", -1)
+        targets = [s for s in sorted(paths) if s != fail and len(paths[s]) < maxlen - 1]
+        if not targets:
+            return []
+        rng.shuffle(targets)
+        # states no earlier input rested in come first (coverage feedback), the others keep their shuffled order
+        avoid = set(avoid)
+        targets = [s for s in targets if s not in avoid] + [s for s in targets if s in avoid]
+        allvals = sorted({v for st in self.states for t in st["tr"] for v in t["on"] if isinstance(v, int)}) or [97]
+        res = []
+        for s in targets:
+            if len(res) >= count:
+                break
+            vals, _ = self.candidates(s)
+            kind = rng.randrange(4)
+            if kind == 0 and vals:
+                b = rng.choice(vals)
+            elif kind == 1:
+                b = rng.choice(allvals)
+            elif kind == 2:
+                b = 255
+            else:
+                b = self._else_byte(s, rng)
+                if b is None:
+                    b = rng.choice(allvals)
+            x = bytearray(paths[s])
+            x.append(b)
+            cur = next(iter(sorted(self._succ_all(s, b))), -1)
+            for _ in range(rng.randrange(0, 4)):
+                if cur < 0 or len(x) >= maxlen:
+                    break
+                v2, _ = self.candidates(cur)
+                b2 = rng.choice(v2) if v2 and rng.random() < 0.8 else rng.choice(allvals)
+                x.append(b2)
+                cur = self.step(cur, b2, rng)
+            res.append(bytes(x[:maxlen]))
+        return res
+
+
+def cover_inputs(rng, dfa, count, maxlen, avoid=()):
+    if count <= 0:
+        return []
+    return Walker(dfa).cover(rng, count, maxlen, avoid)
+
+
+def resting_states(dfa):
+    """states the machine can be saved in between two bytes: the start state and every target of a consuming transition"""
+    rest = {dfa["start"]}
+    for st in dfa["states"]:
+        for t in st["tr"]:
+            if not t["fall"] and not t["cond"] and t["to"] >= 0 and "E" not in t["on"][:1]:
+                rest.add(t["to"])
+    rest.discard(dfa.get("fail", -1))
+    return rest
+
+
 def mutate(rng, data, allvals=None):
     data = bytearray(data)
     k = rng.randrange(6)
